@@ -59,7 +59,7 @@ if __name__ == "__main__":
     wrapper = MatlabWrapper(
         module_name=args.module_name,
         top_module_namespace=top_module_namespaces,
-        ignore_classes=args.ignore,
+        ignore_classes=args.ignore or [],
         use_boost_serialization=args.use_boost_serialization)
 
     sources = args.src.split(';')
